@@ -94,6 +94,64 @@ def types_differ(P, Q, mapping):
     return out
 
 
+HUGE = (2 ** 53 + 1, 2 ** 53 - 1, 2 ** 63 + 1, 10 ** 20 + 1, -(2 ** 53 + 1))
+
+
+def corpus_huge_constants():
+    """corner problems whose numeric constants do not fit a binary double: REAL constants that are integral and above
+    2**53 (2**53 +- 1, 2**63 + 1, 10**20 + 1, negative, built as a fraction that reduces to denominator 1), the
+    near-integral reals c - 1/2 next to them, and Int constants of the same size; as initial values, in preconditions,
+    as assigned values, in goals, and (second problem) as duration bounds, timed conditions/effects and timed goals.
+    The exact rational constants of the model (Q) are the oracle: any printer/parser path through a float changes them."""
+    from fractions import Fraction
+    from unified_planning.model import Fluent, InstantaneousAction, DurativeAction
+    from unified_planning.model.timing import StartTiming, EndTiming, GlobalStartTiming
+    from harness.gen.pddlgen import Hand, _base
+    out = []
+    env, tm, em, T, p, o1, o2 = _base("huge-integral-real-constants")
+    done = Fluent("done", tm.BoolType(), environment=env)
+    p.add_fluent(done, default_initial_value=False)
+    fls = []
+    for k, c in enumerate(HUGE):
+        r = Fluent("r%d" % k, tm.RealType(), environment=env)
+        big = em.Real(Fraction(2 * c, 2)) if k % 2 else em.Real(Fraction(c))     # both reduce to denominator 1
+        p.add_fluent(r, default_initial_value=big)
+        fls.append(r)
+        a = InstantaneousAction("close%d" % k, _env=env)
+        a.add_precondition(em.GT(r, em.Real(Fraction(2 * c - 1, 2))))            # c - 1/2 < r: true exactly while r = c
+        a.add_effect(r, em.Real(Fraction(c - 2)))                                # another integral real with no double
+        a.add_effect(done, True)
+        p.add_action(a)
+        b = InstantaneousAction("open%d" % k, _env=env)
+        b.add_precondition(em.Equals(r, em.Real(Fraction(c - 2))))
+        b.add_effect(r, em.Plus(r, em.Real(Fraction(2))))                        # a small integral real (3.0-style)
+        p.add_action(b)
+    n = Fluent("n", tm.IntType(), environment=env)                               # Int constants of the same magnitude
+    p.add_fluent(n, default_initial_value=em.Int(2 ** 53 + 1))
+    a = InstantaneousAction("stepn", _env=env)
+    a.add_precondition(em.GT(n, em.Int(2 ** 53)))
+    a.add_effect(n, em.Int(2 ** 63 + 1))
+    p.add_action(a)
+    p.add_goal(em.And(done, em.LE(fls[0], em.Real(Fraction(HUGE[0] - 2))), em.Equals(n, em.Int(2 ** 63 + 1))))
+    out.append(Hand(p, "huge-integral-real-constants"))
+
+    env, tm, em, T, p, o1, o2 = _base("huge-real-constants-temporal")
+    c = 2 ** 53 + 1
+    r = Fluent("r", tm.RealType(), x=T, environment=env)
+    p.add_fluent(r, default_initial_value=em.Real(Fraction(c)))
+    a = DurativeAction("hold", x=T, _env=env)
+    x = a.parameter("x")
+    a.set_closed_duration_interval(em.Real(Fraction(c)), em.Real(Fraction(c + 2)))
+    a.add_condition(StartTiming(), em.GT(r(x), em.Real(Fraction(2 * c - 1, 2))))
+    a.add_effect(EndTiming(), r(x), em.Real(Fraction(10 ** 20 + 1)))
+    p.add_action(a)
+    p.add_timed_effect(GlobalStartTiming(5), r(em.ObjectExp(o1)), em.Real(Fraction(2 ** 63 + 1)))
+    p.add_timed_goal(GlobalStartTiming(7), em.GE(r(em.ObjectExp(o1)), em.Real(Fraction(2 ** 63 + 1))))
+    p.add_goal(em.Equals(r(em.ObjectExp(o2)), em.Real(Fraction(10 ** 20 + 1))))
+    out.append(Hand(p, "huge-real-constants-temporal"))
+    return out
+
+
 def gen_anml(rng, temporal):
     g = IoGenProblem(rng, target="anml", metrics=False, obj_fluents=rng.random() < 0.6, undef_num=True, bounded=rng.random() < 0.5,
                      forall=rng.random() < 0.5, conditional=True)
@@ -134,7 +192,7 @@ def run(ctx):
     cap_writer = Captured()
     cases, owners = [], []
     generated = attempts = 0
-    hands = corpus_anml() + corpus_pddl()       # hand-written corner problems first (not counted in nprob)
+    hands = corpus_anml() + corpus_pddl() + corpus_huge_constants()      # hand-written corner problems first (not counted in nprob)
     stats["corner_corpus"] = [h.label for h in hands]
     while (generated < nprob or hands) and attempts < nprob * 8:
         attempts += 1
